@@ -332,6 +332,31 @@ def rule_decode_side(repo, res):
     if not ok:
         res.add(Finding("PDS", "PDSLabelEncoder.encode_time", "refusals", "PDSLabelEncoder.encode_time no longer refuses "
                         "sub-millisecond precision or non-UTC zones", where=f"pvl/encoder.py:{fn.lineno}"))
+    # every text PDSLabelEncoder.encode_time returns is returned under the UTC test whose other arm refuses
+    from . import flow
+    sc = flow.stmts_with_conds(fn.body)
+
+    def zone_conds(conds):
+        out = set()
+        for test, pol in conds:
+            if not isinstance(test, ast.expr):
+                continue
+            while isinstance(test, ast.UnaryOp) and isinstance(test.op, ast.Not):
+                test, pol = test.operand, not pol
+            if "tzinfo" in norm(test, 400) or "utcoffset" in norm(test, 400):
+                out.add((id(test), pol))
+        return out
+    refusals = [zone_conds(c) for st, c in sc if isinstance(st, ast.Raise) and zone_conds(c)]
+    rets = [(st, zone_conds(c)) for st, c in sc if isinstance(st, ast.Return)]
+    res.floor("returns of PDSLabelEncoder.encode_time", len(rets), 1)
+    for st, zc in rets:
+        ok = any((i, not p) in zc for r in refusals for (i, p) in r)
+        res.oblige("PDS", f"PDSLabelEncoder.encode_time `{norm(st, 40)}` is reached only under the UTC test whose other arm raises", ok=ok)
+        if not ok:
+            res.add(Finding("PDS", "PDSLabelEncoder.encode_time", "return outside the UTC test",
+                            f"`{norm(st, 60)}` of PDSLabelEncoder.encode_time is reached without the test that refuses non-UTC "
+                            "zones: a time with another zone offset is written as if it were UTC (the text denotes another instant)",
+                            where=f"pvl/encoder.py:{st.lineno}"))
     # ODL encoder refuses naive times
     fn = canon.canon_method(repo, "ODLEncoder", "encode_time")
     first = [n for n in fn.body if isinstance(n, ast.If)]
